@@ -525,3 +525,147 @@ example : ∀ t : CmpOp, docMisuse t { ord := { key := some ["k"] } } = false :=
   intro t; cases t <;> decide
 
 end DX
+
+namespace DX
+
+/-! ### `cmp` is a total order: reflexive-on-equal, flips under swap, transitive -/
+
+/-- a lawful three-way comparison -/
+structure LawfulCmp {α} (c : α → α → Ordering) : Prop where
+  swap : ∀ x y, c y x = revOrd (c x y)
+  eq_congr : ∀ x y z, c x y = .eq → c x z = c y z
+  lt_trans : ∀ x y z, c x y = .lt → c y z = .lt → c x z = .lt
+
+theorem revOrd_revOrd (o : Ordering) : revOrd (revOrd o) = o := by cases o <;> rfl
+theorem revOrd_eq_eq (o : Ordering) : revOrd o = .eq ↔ o = .eq := by cases o <;> simp [revOrd]
+theorem revOrd_eq_lt (o : Ordering) : revOrd o = .lt ↔ o = .gt := by cases o <;> simp [revOrd]
+theorem revOrd_eq_gt (o : Ordering) : revOrd o = .gt ↔ o = .lt := by cases o <;> simp [revOrd]
+
+/-- congruence in the right argument, and transitivity for `>` , follow -/
+theorem LawfulCmp.eq_congr_right {α} {c : α → α → Ordering} (h : LawfulCmp c) (x y z : α) (hyz : c y z = .eq) :
+    c x y = c x z := by
+  have h1 : c z y = .eq := by rw [h.swap y z, hyz]; rfl
+  have h2 := h.eq_congr z y x h1
+  rw [h.swap x z, h.swap x y] at h2
+  have := congrArg revOrd h2
+  simp only [revOrd_revOrd] at this
+  exact this.symm
+
+theorem LawfulCmp.gt_trans {α} {c : α → α → Ordering} (h : LawfulCmp c) (x y z : α) (h1 : c x y = .gt) (h2 : c y z = .gt) :
+    c x z = .gt := by
+  have a : c y x = .lt := by rw [h.swap x y, h1]; rfl
+  have b : c z y = .lt := by rw [h.swap y z, h2]; rfl
+  have := h.lt_trans z y x b a
+  rw [h.swap z x, this]; rfl
+
+/-- reversing a lawful comparison is lawful -/
+theorem LawfulCmp.rev {α} {c : α → α → Ordering} (h : LawfulCmp c) (r : Bool) : LawfulCmp (fun x y => revIf r (c x y)) := by
+  cases r
+  · exact ⟨h.swap, h.eq_congr, h.lt_trans⟩
+  · refine ⟨?_, ?_, ?_⟩
+    · intro x y; simp only [revIf, if_true]; rw [h.swap x y]
+    · intro x y z hxy
+      simp only [revIf, if_true] at hxy ⊢
+      rw [h.eq_congr x y z ((revOrd_eq_eq _).mp hxy)]
+    · intro x y z h1 h2
+      simp only [revIf, if_true] at h1 h2 ⊢
+      rw [revOrd_eq_lt] at h1 h2 ⊢
+      exact h.gt_trans x y z h1 h2
+
+/-- the lexicographic product of lawful comparisons (one per index of the list) -/
+def lexL {α ι} (k : ι → α → α → Ordering) (l : List ι) (x y : α) : Ordering := lexOrd (l.map fun i => k i x y)
+
+theorem lexL_cons {α ι} (k : ι → α → α → Ordering) (i : ι) (l : List ι) (x y : α) :
+    lexL k (i :: l) x y = match k i x y with | .eq => lexL k l x y | o => o := by
+  unfold lexL
+  simp only [List.map_cons]
+  cases h : k i x y <;> simp [lexOrd, h]
+
+theorem lexL_lawful {α ι} (k : ι → α → α → Ordering) (l : List ι) (hk : ∀ i ∈ l, LawfulCmp (k i)) : LawfulCmp (lexL k l) := by
+  induction l with
+  | nil => exact ⟨fun _ _ => rfl, fun _ _ _ _ => rfl, fun _ _ _ h _ => by cases h⟩
+  | cons i l ih =>
+    have hi := hk i (by simp)
+    have ih' := ih (fun j hj => hk j (by simp [hj]))
+    refine ⟨?_, ?_, ?_⟩
+    · intro x y
+      rw [lexL_cons, lexL_cons, hi.swap x y]
+      cases h : k i x y <;> simp [revOrd]
+      exact ih'.swap x y
+    · intro x y z hxy
+      rw [lexL_cons] at hxy
+      cases h : k i x y <;> rw [h] at hxy <;> simp at hxy
+      rw [lexL_cons, lexL_cons, hi.eq_congr x y z h]
+      cases k i y z <;> simp
+      exact ih'.eq_congr x y z hxy
+    · intro x y z h1 h2
+      rw [lexL_cons] at h1 h2 ⊢
+      cases hxy : k i x y <;> rw [hxy] at h1 <;> simp at h1
+      · -- k i x y = lt
+        cases hyz : k i y z <;> rw [hyz] at h2 <;> simp at h2
+        · rw [hi.lt_trans x y z hxy hyz]
+        · rw [← hi.eq_congr_right x y z hyz, hxy]
+      · -- k i x y = eq
+        rw [hi.eq_congr x y z hxy]
+        cases hyz : k i y z
+        · rfl
+        · rw [hyz] at h2
+          show lexL k l x z = .lt
+          exact ih'.lt_trans x y z h1 h2
+        · rw [hyz] at h2
+          cases h2
+
+theorem nat_compare_lawful : LawfulCmp (fun m n : Nat => compare m n) := by
+  refine ⟨?_, ?_, ?_⟩
+  · intro x y
+    rcases Nat.lt_trichotomy x y with h | h | h
+    · simp only [Nat.compare_eq_lt.mpr h, Nat.compare_eq_gt.mpr h]; rfl
+    · subst h; simp [revOrd]
+    · simp only [Nat.compare_eq_gt.mpr h, Nat.compare_eq_lt.mpr h]; rfl
+  · intro x y z h
+    have : x = y := Nat.compare_eq_eq.mp h
+    subst this; rfl
+  · intro x y z h1 h2
+    exact Nat.compare_eq_lt.mpr (Nat.lt_trans (Nat.compare_eq_lt.mp h1) (Nat.compare_eq_lt.mp h2))
+
+/-- per-field comparison of two values, reversal included -/
+def fieldCmpK (cmpD cmpK : FieldE → V → V → Ordering) (f : FieldE) (a b : Val V) : Ordering :=
+  revIf (docReversed .ord f.h.cmp) (fo cmpD cmpK a b f)
+
+theorem fieldCmpK_lawful (cmpD cmpK : FieldE → V → V → Ordering)
+    (hD : ∀ f, LawfulCmp (cmpD f)) (hK : ∀ f, LawfulCmp (cmpK f)) (f : FieldE) :
+    LawfulCmp (fieldCmpK cmpD cmpK f) := by
+  have base : LawfulCmp (fun (a b : Val V) => fo cmpD cmpK a b f) := by
+    unfold fo fieldOrd
+    cases f.h.cmp.anyKeyBy
+    · exact ⟨fun x y => (hD f).swap _ _, fun x y z h => (hD f).eq_congr _ _ _ h, fun x y z h1 h2 => (hD f).lt_trans _ _ _ h1 h2⟩
+    · exact ⟨fun x y => (hK f).swap _ _, fun x y z h => (hK f).eq_congr _ _ _ h, fun x y z h1 h2 => (hK f).lt_trans _ _ _ h1 h2⟩
+  exact base.rev _
+
+/-- on values of one variant (or a struct) the derived `cmp` is the lexicographic product of lawful comparisons:
+it is transitive, flips under swap, and `Equal` is a congruence -/
+theorem cmp_fields_lawful (σ : Env V F) (cmpD cmpK hashK) (hc : CoherentEnv σ cmpD cmpK hashK)
+    (hD : ∀ f, LawfulCmp (cmpD f)) (hK : ∀ f, LawfulCmp (cmpK f))
+    (fields : List FieldE) (ha : accepted .ord fields) :
+    LawfulCmp (fun a b => docCmpFields σ a b fields) := by
+  have heq : (fun a b => docCmpFields σ a b fields) = lexL (fieldCmpK cmpD cmpK) (docCompared .ord fields) := by
+    funext a b
+    rw [docCmpFields_coherent σ _ _ _ hc a b fields ha]
+    rfl
+  rw [heq]
+  exact lexL_lawful _ _ (fun f _ => fieldCmpK_lawful cmpD cmpK hD hK f)
+
+/-- strict transitivity of the derived `cmp` on values of one variant -/
+theorem cmp_trans_fields (σ : Env V F) (cmpD cmpK hashK) (hc : CoherentEnv σ cmpD cmpK hashK)
+    (hD : ∀ f, LawfulCmp (cmpD f)) (hK : ∀ f, LawfulCmp (cmpK f))
+    (fields : List FieldE) (ha : accepted .ord fields) (a b c : Val V)
+    (h1 : docCmpFields σ a b fields = .lt) (h2 : docCmpFields σ b c fields = .lt) :
+    docCmpFields σ a c fields = .lt :=
+  (cmp_fields_lawful σ cmpD cmpK hashK hc hD hK fields ha).lt_trans a b c h1 h2
+
+/-- across variants the order is that of the declaration positions, which is lawful as well -/
+theorem variant_order_lawful : LawfulCmp (fun (a b : Val V) => compare a.variant b.variant) :=
+  ⟨fun x y => nat_compare_lawful.swap _ _, fun x y z h => nat_compare_lawful.eq_congr _ _ _ h,
+   fun x y z h1 h2 => nat_compare_lawful.lt_trans _ _ _ h1 h2⟩
+
+end DX
